@@ -138,6 +138,14 @@ func c09routing(c *runner.Ctx, i int) {
 				want = append(want, 0)
 			}
 		}
+		// Whether Marshal accepts a documented Go value at all is C02/C12's subject (known finding: unsigned
+		// values above the signed maximum for varint); here only the layout built from the encodings counts.
+		for j := 0; j < nkey && okWant; j++ {
+			if _, err, pan := safeMarshal(typeInfo(types[st.pk[j]], version), args[st.pk[j]]); err != nil || pan != nil {
+				okWant = false
+				c.Add("key_component_not_marshalable", 1)
+			}
+		}
 		if !okWant {
 			continue
 		}
